@@ -27,3 +27,91 @@ var SpecRules = []validator.Rule{
 func Validate(schema *ast.Schema, doc *ast.QueryDocument) gqlerror.List {
 	return validator.Validate(schema, doc, SpecRules...)
 }
+
+// MergeConflict is the harness's own reading of the spec's FieldsInSetCanMerge, applied after
+// Validate to every generated document. gqlparser's OverlappingFieldsCanBeMergedRule, which gqlgen
+// relies on, lets some conflicting documents through (seen: a field `x:owner` next to `...F2`,
+// where F2 spreads F1, F1 selects `x:id`, and F1 is also spread inside the `x:owner` selection):
+// such a document is not a valid operation, no property quantifies over it, and what gqlgen
+// answers to it (both fields, under the same response key) is not a verdict on gqlgen. The check
+// is a little stricter than the spec: fields with the same response key must have the same name
+// and arguments unless both parents are different object types, and the sub-selections of all
+// fields with one response key must merge, exclusive parents or not. It returns "" or the
+// conflicting response key. The document must have been validated (parent types are read from
+// Field.ObjectDefinition).
+func MergeConflict(doc *ast.QueryDocument) string {
+	for _, op := range doc.Operations {
+		if k := mergeConflictIn(doc, []ast.SelectionSet{op.SelectionSet}, 0); k != "" {
+			return k
+		}
+	}
+	return ""
+}
+
+func mergeConflictIn(doc *ast.QueryDocument, sets []ast.SelectionSet, depth int) string {
+	if depth > 12 {
+		return ""
+	}
+	var keys []string
+	byKey := map[string][]*ast.Field{}
+	seen := map[string]bool{}
+	var collect func(ss ast.SelectionSet)
+	collect = func(ss ast.SelectionSet) {
+		for _, sel := range ss {
+			switch sel := sel.(type) {
+			case *ast.Field:
+				k := sel.Alias
+				if k == "" {
+					k = sel.Name
+				}
+				if _, ok := byKey[k]; !ok {
+					keys = append(keys, k)
+				}
+				byKey[k] = append(byKey[k], sel)
+			case *ast.InlineFragment:
+				collect(sel.SelectionSet)
+			case *ast.FragmentSpread:
+				if seen[sel.Name] {
+					continue
+				}
+				seen[sel.Name] = true
+				if def := doc.Fragments.ForName(sel.Name); def != nil {
+					collect(def.SelectionSet)
+				}
+			}
+		}
+	}
+	for _, ss := range sets {
+		collect(ss)
+	}
+	argsOf := func(f *ast.Field) string {
+		s := ""
+		for _, a := range f.Arguments {
+			s += a.Name + ":" + a.Value.String() + ","
+		}
+		return s
+	}
+	for _, k := range keys {
+		group := byKey[k]
+		var subs []ast.SelectionSet
+		for i, f := range group {
+			if len(f.SelectionSet) > 0 {
+				subs = append(subs, f.SelectionSet)
+			}
+			for _, g := range group[:i] {
+				exclusive := f.ObjectDefinition != nil && g.ObjectDefinition != nil &&
+					f.ObjectDefinition.Kind == ast.Object && g.ObjectDefinition.Kind == ast.Object &&
+					f.ObjectDefinition.Name != g.ObjectDefinition.Name
+				if !exclusive && (f.Name != g.Name || argsOf(f) != argsOf(g)) {
+					return k
+				}
+			}
+		}
+		if len(subs) > 0 {
+			if c := mergeConflictIn(doc, subs, depth+1); c != "" {
+				return c
+			}
+		}
+	}
+	return ""
+}
